@@ -20,7 +20,7 @@ def encodable : Opt → Bool
   | .pi a len _ _ v p => canonical6 a len && fits v second 32 && fits p second 32
   | .ri a len pref l => canonical6 a len && (pref == 0 || pref == 1 || pref == 3) && fits l second 32
   | .rdnss l servers => !servers.isEmpty && decide (servers.length ≤ 127) && servers.all (·.is6) && fits l second 32
-  | .dnssl l names => !names.isEmpty && fits l second 32
+  | .dnssl l names => !names.isEmpty && !names.contains 0 && fits l second 32   -- id 0: the empty name ends the list on the wire (F-25)
   | .mtu m => decide (0 ≤ m) && decide (m < 2^32)
   | .lla len _ => len == 6
   | .captivePortal _ len => decide (1 ≤ len) && decide (len ≤ 246)
